@@ -271,12 +271,8 @@ func (s *StakeShadow) Advance(e *Env, blk *world.BlockRecord) {
 				if s.Locks[addr] == nil {
 					s.Locks[addr] = map[string]math.Int{}
 				}
-				// the lock recorded by the chain is checked by C07; the model keeps the true sum when it fits
-				if jv.TrueSum.IsInt64() {
-					s.Locks[addr][feedstypes.ModuleName] = math.NewIntFromBigInt(jv.TrueSum)
-				} else {
-					s.Locks[addr][feedstypes.ModuleName] = math.NewInt(feedstypes.SumPower(meta.Msg.Signals))
-				}
+				// an accepted vote locks the true (unbounded) sum of its powers; whether the chain recorded that is C07's check
+				s.Locks[addr][feedstypes.ModuleName] = math.NewIntFromBigInt(jv.TrueSum)
 			}
 		}
 	}
@@ -303,6 +299,7 @@ type StakeActor struct {
 	Denoms    []string // denoms tried for restaking (allowed and not)
 	ModuleP   int      // permille per step of a module-level lock / vault operation
 	VaultKeys []string
+	Whale     bool // the first voter restakes an amount at the 2^63 / 2^64 boundaries (needs matching genesis balances)
 }
 
 func (a *StakeActor) OnBlock(e *Env, blk *world.BlockRecord) {}
@@ -321,6 +318,16 @@ func (a *StakeActor) Act(e *Env) {
 			n := 1 + e.Ch.Intn("stake.init.nvals", min(3, len(w.Vals)))
 			for i := 0; i < n; i++ {
 				a.submitDelegate(e, u, w.Vals[(i+e.Ch.Intn("stake.init.val", len(w.Vals)))%len(w.Vals)], int64(500+e.Ch.Intn("stake.init.amt", 5000)))
+			}
+			if a.Whale && u == a.Voters[0] && len(sh.Allowed) > 0 {
+				two63 := new(big.Int).Lsh(big.NewInt(1), 63)
+				two64 := new(big.Int).Lsh(big.NewInt(1), 64)
+				base := []*big.Int{two63, two64}[e.Ch.Intn("stake.whale.base", 2)]
+				amt := math.NewIntFromBigInt(new(big.Int).Add(base, big.NewInt(int64(e.Ch.Intn("stake.whale.off", 3))-1)))
+				c := sdk.NewCoins(sdk.NewCoin(sh.Allowed[0], amt))
+				e.Submit(u, "restake_stake", &stakeOpMeta{Kind: "stake", Addr: u, Coins: c, Aim: "free"}, restaketypes.NewMsgStake(u.Addr, c))
+				e.St.Probe("restake_of_an_amount_at_the_2^63_or_2^64_boundary")
+				continue
 			}
 			if e.Ch.Bool("stake.init.restake", 600) && len(sh.Allowed) > 0 {
 				c := sdk.NewCoins(sdk.NewInt64Coin(sh.Allowed[0], int64(100+e.Ch.Intn("stake.init.restake.amt", 3000))))
@@ -367,7 +374,7 @@ func (a *StakeActor) Act(e *Env) {
 		switch e.Ch.Weighted("stake.aim", []int{30, 25, 25, 10, 10}) {
 		case 0:
 			if avail.IsPositive() {
-				return math.NewInt(1 + int64(e.Ch.Intn("stake.aim.free", int(min64(avail.Int64(), 1<<30))))), "free"
+				return math.NewInt(1 + int64(e.Ch.Intn("stake.aim.free", int(min64(clampInt64(avail), 1<<30))))), "free"
 			}
 			return math.NewInt(1), "free"
 		case 1:
@@ -430,6 +437,17 @@ func (a *StakeActor) Act(e *Env) {
 		c := sdk.NewCoins(sdk.NewCoin(c0.Denom, amt))
 		e.Submit(u, "restake_unstake", &stakeOpMeta{Kind: "unstake", Addr: u, Coins: c, Aim: aim}, restaketypes.NewMsgUnstake(u.Addr, c))
 	}
+}
+
+// clampInt64 converts without panicking: amounts above 2^63-1 (whale runs) become 2^63-1.
+func clampInt64(x math.Int) int64 {
+	if x.IsInt64() {
+		return x.Int64()
+	}
+	if x.IsNegative() {
+		return -1 << 63
+	}
+	return 1<<63 - 1
 }
 
 func min64(a, b int64) int64 {
@@ -499,15 +517,16 @@ func (a *VoteActor) Act(e *Env) {
 			if i == n-1 && (mode == 1 || mode == 2) {
 				p = rest
 			} else if rest.GT(math.NewInt(int64(n))) {
-				p = math.NewInt(1 + int64(e.Ch.Intn("vote.power", int(min64(rest.QuoRaw(int64(n-i)).Int64(), 1<<30)))))
+				p = math.NewInt(1 + int64(e.Ch.Intn("vote.power", int(min64(clampInt64(rest.QuoRaw(int64(n-i))), 1<<30)))))
 			} else {
 				p = math.NewInt(1)
 			}
 			if !p.IsPositive() {
 				p = math.NewInt(1)
 			}
+			p = math.NewInt(clampInt64(p))
 			rest = rest.Sub(p)
-			sigs = append(sigs, feedstypes.Signal{ID: a.Signals[perm[i]], Power: p.Int64()})
+			sigs = append(sigs, feedstypes.Signal{ID: a.Signals[perm[i]], Power: clampInt64(p)})
 		}
 	}
 	if e.Ch.Bool("vote.dupid", 30) && len(sigs) > 1 {
